@@ -72,6 +72,11 @@ Indices(gases) == [i \in 1..Len(gases) |-> i]
 ActiveIdx(gases, avail)   == SelectSeq(Indices(gases), LAMBDA i : gases[i] \in avail)
 InactiveIdx(gases, avail) == SelectSeq(Indices(gases), LAMBDA i : gases[i] \notin avail)
 Names(gases, idx) == [k \in 1..Len(idx) |-> gases[idx[k]]]
+\* WHERE the opacity data comes from is a dimension of "availability": a molecule has opacity data when a file for it
+\* lies in the cross-section directory (dir), when an opacity object was registered by hand (hand: OpacityCache().add_opacity,
+\* load_opacity(opacities = ..)), or both -- also when the two sources are present AT ONCE for different molecules.
+\* Wrong design "hand_fallback": the hand-registered opacities count only while the directory yields nothing.
+AvailableFrom(dir, hand, variant) == IF variant = "hand_fallback" THEN (IF dir = {} THEN hand ELSE dir) ELSE dir \cup hand
 
 \* ----------------------------------------------------- gas profiles (log10 domain)
 ConstProfile(v, n) == [l \in 1..n |-> v]
